@@ -272,6 +272,17 @@ def string_case(cls):
       "QGRU": (lambda: qk.QGRU(2, kernel_quantizer=s1, recurrent_quantizer=s3, bias_quantizer=s2, reset_after=False), (None, 3, 2),
                ["kernel_quantizer_internal", "recurrent_quantizer_internal", "bias_quantizer_internal"]),
   }
+  if cls == "QBidirectional":
+    lay = qk.QBidirectional(qk.QLSTM(2, kernel_quantizer=s1, recurrent_quantizer=s3, bias_quantizer=s2))
+    lay.build((None, 3, 2))
+    lay(tf.zeros((1, 3, 2)))
+    fwd, bwd = list(lay.forward_layer.get_quantizers()), list(lay.backward_layer.get_quantizers())
+    r1 = list(lay.get_quantizers())
+    r2 = list(lay.get_quantizers())                    # asking twice must not change anything (no shared list grows)
+    ok = int(len(r1) == len(fwd) + len(bwd) and all(a is b for a, b in zip(r1, fwd + bwd)) and
+             len(r2) == len(r1) and all(a is b for a, b in zip(r1, r2)) and
+             len(lay.forward_layer.get_quantizers()) == len(fwd) and len(lay.backward_layer.get_quantizers()) == len(bwd))
+    return {"kind": "strq", "cls": cls, "applied_ok": ok, "stock": 1}
   mk, shape, attrs = specs[cls]
   ok = 1
   for rebuilt in (False, True):
@@ -281,6 +292,9 @@ def string_case(cls):
     lay.build(shape)
     lay(tf.zeros((1,) + tuple(shape[1:])))
     reported = [q for q in lay.get_quantizers() if q is not None]
+    again = [q for q in lay.get_quantizers() if q is not None]
+    if len(again) != len(reported) or any(a is not b for a, b in zip(again, reported)):
+      ok = 0
     applied = [getattr(lay, a) for a in attrs]
     if len(reported) < len(applied) or any(r is not a for r, a in zip(reported, applied)) or not all(callable(r) for r in reported):
       ok = 0
@@ -288,7 +302,7 @@ def string_case(cls):
 
 
 STRING_CLASSES = ["QDense", "QConv1D", "QConv2D", "QDepthwiseConv2D", "QSeparableConv2D", "QSeparableConv1D", "QScaleShift",
-                  "QAveragePooling2D", "QGlobalAveragePooling2D", "QSimpleRNN", "QLSTM", "QGRU"]
+                  "QAveragePooling2D", "QGlobalAveragePooling2D", "QSimpleRNN", "QLSTM", "QGRU", "QBidirectional"]
 
 
 def pool_case(rnd, cls):
@@ -306,13 +320,20 @@ def pool_case(rnd, cls):
   else:
     lay = QGlobalAveragePooling2D(**qkw)
     area = h * w
+  if cls == "QGlobalAveragePooling2D" and rnd.random() < 0.5:
+    # history: the same layer object was used before on another spatial size (fully convolutional use)
+    h0, w0 = rnd.choice([(2, 3), (3, 5), (5, 5)])
+    lay(tf.zeros((1, h0, w0, c)))
+    del log[:]
   x = np.array([rnd.randint(-6, 6) for _ in range(h * w * c)], dtype=np.float32).reshape((1, h, w, c)) * 2.0 ** SX
   y = lay(tf.constant(x)).numpy()
   rec = {r: (a, b) for r, a, b in log}
+  # the average quantizer is applied to the reciprocal of THIS call's pooling area
+  area_ok = int(np.float32(np.asarray(rec["average"][0]).reshape(-1)[0]) == np.float32(1.0 / area))
   qmult = float(np.asarray(rec["average"][1]))
   qm = int(round(qmult * 128))
   ev = {"kind": "layer", "cls": cls, "g": {"sh": s, "sw": s, "dh": 1, "dw": 1, "pad": "valid"}, "usebias": 0,
-        "hasact": int(hasact), "ph": ph, "pw": pw, "qm": qm, "applied": [r for r, _, _ in log], "dm": 1,
+        "hasact": int(hasact), "ph": ph, "pw": pw, "qm": qm, "applied": [r for r, _, _ in log], "dm": 1, "area_ok": area_ok,
         "reported": [names_for(lay)[j] for j, q in enumerate(lay.get_quantizers()) if q is not None]}
   # literal oracle: stock average pooling of the same input times the recorded quantized reciprocal (x area)
   if cls == "QAveragePooling2D":
@@ -415,7 +436,7 @@ def main():
         ev = rnn_case(rnd, cls)
       for k, v in (("x", [0]), ("qk", [0]), ("qk2", [0]), ("qb", [0]), ("pre", [0]), ("reported", []), ("applied", []),
                    ("applied_ok", 1), ("stock", 1), ("g", {"sh": 1, "sw": 1, "dh": 1, "dw": 1, "pad": "valid"}),
-                   ("usebias", 0), ("hasact", 0), ("ph", 1), ("pw", 1), ("qm", 1)):
+                   ("usebias", 0), ("hasact", 0), ("ph", 1), ("pw", 1), ("qm", 1), ("area_ok", 1)):
         ev.setdefault(k, v)
       events.append(ev)
     except Exception as e:
